@@ -269,6 +269,62 @@ pub fn policies(n_leaves: usize) -> Vec<P> {
     out
 }
 
+/// Larger policies of fixed shapes (beyond the exhaustive leaf bound): a small compound branch next
+/// to a k-of-n key threshold (every k, n = 3..5) under every combinator and odds, and or-chains of
+/// five and six keys. They exercise leaf enumeration / leaf caps and threshold handling of the
+/// taproot compilers and the k-of-n special cases of the miniscript compiler.
+pub fn large_policies() -> Vec<P> {
+    let key = |i: usize| P::Key(format!("K{}", i));
+    let xs: Vec<P> = vec![
+        key(1),
+        P::And(vec![key(1), key(2)]),
+        P::And(vec![key(1), P::Older(5)]),
+        P::Or(vec![(1, key(1)), (1, P::Sha256("H1".into()))]),
+        P::And(vec![key(1), P::Sha256("H1".into())]),
+    ];
+    let mut out = vec![];
+    for n in 3..=5usize {
+        for k in 1..=n {
+            let t = P::Thresh(k, (0..n).map(|i| key(10 + i)).collect());
+            out.push(t.clone());
+            for x in &xs {
+                for (a, b) in [(1usize, 1usize), (9, 1), (1, 9)] {
+                    out.push(P::Or(vec![(a, x.clone()), (b, t.clone())]));
+                    out.push(P::Or(vec![(a, t.clone()), (b, x.clone())]));
+                }
+                out.push(P::And(vec![x.clone(), t.clone()]));
+                if n == 3 {
+                    out.push(P::Thresh(2, vec![x.clone(), t.clone(), key(20)]));
+                    out.push(P::Thresh(1, vec![x.clone(), t.clone(), key(20)]));
+                }
+            }
+        }
+    }
+    // or-chains / and-chains of five and six keys, left- and right-leaning, with skewed odds
+    for n in [5usize, 6] {
+        for (a, b) in [(1usize, 1usize), (9, 1), (1, 9)] {
+            let mut r = key(n);
+            let mut l = key(1);
+            for i in (1..n).rev() {
+                r = P::Or(vec![(a, key(i)), (b, r)]);
+            }
+            for i in 2..=n {
+                l = P::Or(vec![(a, l), (b, key(i))]);
+            }
+            out.push(r);
+            out.push(l);
+        }
+        let mut r = key(n);
+        for i in (1..n).rev() {
+            r = P::And(vec![key(i), r]);
+        }
+        out.push(r);
+    }
+    out.sort();
+    out.dedup();
+    out
+}
+
 pub fn run(tier: Tier) -> i32 {
     let rep = Report::new("C08", tier);
     if let Err(e) = crate::kat::run_kats() {
@@ -277,8 +333,10 @@ pub fn run(tier: Tier) -> i32 {
     }
     let n_leaves = tier.pick(3, 4);
     let exec_leaves = tier.pick(3, 3);
-    let pols = policies(n_leaves);
-    rep.extra("bounds", json!({"policy_leaves": n_leaves, "executed_up_to_leaves": exec_leaves, "policies": pols.len(), "weights": ["1@1", "9@1", "1@9"], "thresh_arity": 4}));
+    let mut pols = policies(n_leaves);
+    let n_exhaustive = pols.len();
+    pols.extend(large_policies());
+    rep.extra("bounds", json!({"policy_leaves": n_leaves, "executed_up_to_leaves": exec_leaves, "policies": n_exhaustive, "large_structured_policies": pols.len() - n_exhaustive, "weights": ["1@1", "9@1", "1@9"], "thresh_arity": 4}));
     // hook H2: record every candidate the compiler considers (once per distinct context + text)
     let cen = pols
         .par_iter()
@@ -329,7 +387,8 @@ pub fn run(tier: Tier) -> i32 {
             for (unsp, tag) in [(None, "nokey"), (Some(unspendable.clone()), "unspendable")] {
                 let u = unsp.as_deref();
                 desc_try(&format!("compile_tr-{}", tag), guard(|| real.compile_tr(unsp.clone()).map_err(|x| x.to_string())), u, exec, false, &mut cen);
-                for cap in [1usize, 2, 1024] {
+                let caps: &[usize] = if pol.n_leaves() > 4 { &[1, 2, 3, 4, 5, 6, 7, 8, 1024] } else { &[1, 2, 1024] };
+                for &cap in caps {
                     desc_try(&format!("compile_tr_native-{}-{}", cap, tag), guard(|| real.compile_tr_native(unsp.clone(), cap).map_err(|x| x.to_string())), u, exec && cap == 1024, true, &mut cen);
                 }
                 desc_try(&format!("compile_tr_private-{}", tag), guard(|| real.compile_tr_private_experimental(unsp.clone()).map_err(|x| x.to_string())), u, false, false, &mut cen);
@@ -395,7 +454,7 @@ pub fn run(tier: Tier) -> i32 {
         rep.get("meaning_preserved") + rep.get("worlds_executed") + rep.get("types_rebuilt_equal"),
         rep.get("compile_calls"),
         ok.min(rep.get("worlds_executed").max(2)),
-        "ALL concrete policies up to the leaf bound (and / or with odds 1:1, 9:1, 1:9 / thresh arity <= 4, all k; leaves from key, sha256, after(height), older, after(time); distinct keys) x every compiler entry point: output truth table == policy truth table (own lift, all assignments), small policies additionally executed on the RSM in every world, output sane / signed / non-malleable / within limits / no forbidden fragment, stored ty/ext of every node equal from_ast, every candidate the compiler considered on the way (hook H2; Cast tables, binary / ternary constructors) carries the type and extra data the type checker computes, string re-parses with the default parser to the same structure. non-trivial = min(successful compilations, worlds executed)",
+        "ALL concrete policies up to the leaf bound (+ fixed-shape larger policies: compound branch x k-of-n key threshold n = 3..5 under or / and / thresh and every odds, 5- and 6-key chains; taproot leaf caps 1..8 and 1024 for them) (and / or with odds 1:1, 9:1, 1:9 / thresh arity <= 4, all k; leaves from key, sha256, after(height), older, after(time); distinct keys) x every compiler entry point: output truth table == policy truth table (own lift, all assignments), small policies additionally executed on the RSM in every world, output sane / signed / non-malleable / within limits / no forbidden fragment, stored ty/ext of every node equal from_ast, every candidate the compiler considered on the way (hook H2; Cast tables, binary / ternary constructors) carries the type and extra data the type checker computes, string re-parses with the default parser to the same structure. non-trivial = min(successful compilations, worlds executed)",
         true,
     )
 }
